@@ -137,13 +137,14 @@ func (p *Path) TreePrefix() string {
 			// ROOT argument. A path within a tree-ish is written
 			// `<tree-ish>:<path>`, unless the name already has the
 			// form `<rev>:<path>`.
-			switch {
-			case strings.HasSuffix(p.relativePath, ":"):
-				return p.relativePath
-			case strings.Contains(p.relativePath, ":"):
-				return p.relativePath + "/"
-			default:
+			switch i := strings.IndexByte(p.relativePath, ':'); {
+			case i == -1:
 				return p.relativePath + ":"
+			case i == len(p.relativePath)-1:
+				// `<rev>:` names the root tree of <rev>.
+				return p.relativePath
+			default:
+				return p.relativePath + "/"
 			}
 		default:
 			return "???"
